@@ -37,7 +37,7 @@ def REQUIRED(tier):
 
 def _required(tier):
     return ["snapshots_taken", "snapshot_prefix_checks", "kill_children", "kill:died_at_point", "kill:survivor_opened", "truncations", "strace_runs", "strace_write_events",
-            "writers_covered", "snapshot:preexisting_output", "kill:preexisting_output", "snapshot:product_over_1MiB"]
+            "writers_covered", "snapshot:preexisting_output", "kill:preexisting_output", "snapshot:product_over_1MiB", "kill:unwound_by_exception", "strace:header_over_512_bytes_confirmed"]
 
 
 def EXHAUSTIVE(tier):
@@ -59,6 +59,8 @@ def cases(tier, seed):
             yield {"kind": "kill", "writer": w, "gulp": 5, "k": k}
         for k in (0, 2, 4):
             yield {"kind": "kill", "writer": w, "gulp": 5, "k": k, "pre": True}
+        for k in (1, 3, 6):     # the same points reached by an exception that unwinds the writer (Ctrl-C, a failing read) instead of a hard death
+            yield {"kind": "kill", "writer": w, "gulp": 5, "k": k, "interrupt": True}
         if tier == "thorough":
             for k in range(0, 30, 1):
                 yield {"kind": "kill", "writer": w, "gulp": 1, "k": k}
@@ -67,6 +69,8 @@ def cases(tier, seed):
     sw = ("invert_freq", "extract_samps", "extract_chans", "subband", "ts_to_tim") if tier == "quick" else c20_scen.WRITERS
     for w in sw:
         yield {"kind": "strace", "writer": w, "gulp": 5}
+    for w in ("extract_samps", "extract_bands", "ts_to_tim"):    # output headers longer than 512 bytes (long source name and raw-file path)
+        yield {"kind": "strace", "writer": w, "gulp": 5, "long": True}
 
 
 _hook = {"installed": False, "active": None}
@@ -174,9 +178,9 @@ def _snapshot(case, ctx):
     shutil.rmtree(d, ignore_errors=True)
 
 
-def _child(writer, d, gulp, k, strace_out=None, pre=False):
+def _child(writer, d, gulp, k, strace_out=None, pre=False, flags=()):
     env = dict(os.environ)
-    cmd = [sys.executable, "-X", "faulthandler", "-m", "vlib.c20_scen", writer, d, str(gulp), str(k)] + (["pre"] if pre else [])
+    cmd = [sys.executable, "-X", "faulthandler", "-m", "vlib.c20_scen", writer, d, str(gulp), str(k)] + (["pre"] if pre else []) + list(flags)
     if strace_out:
         cmd = ["strace", "-f", "-y", "-xx", "-s", "1000000", "-o", strace_out, "-e",
                "trace=open,openat,write,pwrite64,pwritev,writev,lseek,ftruncate,fallocate,dup,dup2,dup3,fcntl,close,rename,renameat,renameat2,unlink,unlinkat,mmap"] + cmd
@@ -211,18 +215,29 @@ def _kill(case, ctx):
         return
     d = _newdir(ctx, "k")
     ctx.evaluated(); ctx.count("kill_children")
+    intr = bool(case.get("interrupt"))
     try:
-        res = _child(w, d, gulp, k, pre=bool(case.get("pre")))
+        res = _child(w, d, gulp, k, pre=bool(case.get("pre")), flags=("interrupt",) if intr else ())
         if case.get("pre"):
             ctx.count("kill:preexisting_output")
+        if intr:
+            ctx.count("kill:unwound_by_exception")
     except subprocess.TimeoutExpired:
         ctx.skip("child watchdog"); return
-    died = res.returncode == 137
+    died = res.returncode == (130 if intr else 137)
     if not died and res.returncode != 0:
         ctx.violation(f"child-failed:{w}", f"child exited {res.returncode}: {res.stderr[-400:]}", case)
         return
     ctx.count("kill:died_at_point" if died else "kill:ran_to_completion")
-    present = [f for f in os.listdir(d) if f != "in.fil" and not f.endswith(".inf")]
+    present = [f for f in os.listdir(d) if f != "in.fil" and not f.endswith(".inf") and not f.startswith(".")]
+    started = []
+    if os.path.exists(os.path.join(d, ".writes")):
+        started = list(dict.fromkeys(open(os.path.join(d, ".writes")).read().split()))
+    if died:
+        gone = [n for n in started if n not in present]
+        if gone:
+            ctx.violation(f"started-product-vanished:{w}{':after-exception' if intr else ''}", f"{gone} had received bytes before the interruption after write {k + 1} but no longer exist{' once the writer had unwound' if intr else ''}", case)
+            return
     if not died:
         # call returned, process ended with os._exit (no flush / close / atexit): everything must be complete
         for name, want in ref.items():
@@ -330,7 +345,9 @@ def _strace(case, ctx):
     log = os.path.join(d, "strace.log")
     ctx.evaluated(); ctx.count("strace_runs")
     try:
-        res = _child(w, d, gulp, -1, strace_out=log)
+        res = _child(w, d, gulp, -1, strace_out=log, flags=("long",) if case.get("long") else ())
+        if case.get("long"):
+            ctx.count("strace:header_over_512_bytes")
     except subprocess.TimeoutExpired:
         ctx.skip("strace child watchdog"); return
     if res.returncode != 0 or not os.path.exists(log):
@@ -338,6 +355,12 @@ def _strace(case, ctx):
         ctx.notes["strace_fail"] = res.stderr[-300:]
         return
     outs = [os.path.join(d, f) for f in os.listdir(d) if f not in ("in.fil", "strace.log") and not f.endswith(".inf")]
+    if case.get("long"):
+        hls = [sigfile.parse_header(open(p, "rb").read())[1] for p in outs]
+        if min(hls) <= 512:
+            ctx.skip("long-header scenario produced a header of 512 bytes or less")
+            return
+        ctx.count("strace:header_over_512_bytes_confirmed")
     au = strace_log.Audit(outs)
     au.feed(open(log, errors="replace").read())
     problems = au.finish({p: open(p, "rb").read() for p in outs})
